@@ -22,6 +22,7 @@ Not demanded (left out of the alphabets / not compared):
 """
 import re
 import json
+import hashlib
 import itertools
 
 from ..common import Shard, failure, outcome, HarnessError
@@ -48,8 +49,8 @@ ASSUMPTIONS = [
 BD = 3                                      # block nesting
 # E2 bounds: full alphabet (mods, properties, expression conditions) up to FULL_N lines, static alphabet
 # (definitions, groups, literal conditions) for FULL_N < n <= STATIC_N lines
-BOUNDS = dict(quick=dict(full=5, static=6, d=4, dmax=6),
-              thorough=dict(full=6, static=7, d=5, dmax=8))
+BOUNDS = dict(quick=dict(full=5, static=6, d=5),
+              thorough=dict(full=6, static=7, d=6))
 TARGET = dict(quick=3000, thorough=12000)   # programs per E2 shard (approximate)
 
 
@@ -267,7 +268,7 @@ def _account_flat(sh, seq, key, rec):
     sh.transitions += 1
     sh.traces += 1
     sh.max_depth = max(sh.max_depth, len(seq))
-    sh.add_to_set("states", key)
+    sh.add_to_set("states", hashlib.blake2b(repr(key).encode(), digest_size=8).hexdigest())
     if _nontrivial_flat(seq):
         sh.nontrivial += 1
     if rec:
@@ -299,35 +300,10 @@ def _run_e1_unpruned(desc, sh):
     _dfs((first, second), depth, sh)
 
 
-def _run_e1_bfs(desc, sh):
-    """BFS from depth `start` representatives with pruning; every executed sequence is compared with the reference"""
-    _, start, dmax = desc
-    # representatives at depth `start`: one per state, found by (uncounted) enumeration of the unpruned layer
-    seen = {}
-    frontier = [()]
-    for d in range(1, dmax + 1):
-        nxt = []
-        for hist in frontier:
-            for a in G.FLAT_ALPHABET:
-                h = hist + (a,)
-                terminal, key, rec = _check_flat(h, sh if d > start else None)
-                if d > start:                      # depths <= start are counted by the unpruned shards
-                    _account_flat(sh, h, key, rec)
-                _cheap_isolation()
-                if key not in seen:
-                    seen[key] = h
-                    if not terminal:
-                        nxt.append(h)
-        frontier = nxt
-    sh.add_extra("e1_bfs_states", len(seen))
-    sh.add_extra("e1_bfs_frontier_last", len(frontier))
-
-
 # ------------------------------------------------------------------------------------------ module API
 def plan(tier, seed):
     b = BOUNDS[tier]
-    shards = [("e1b", b["d"], b["dmax"])]
-    shards += _e2_shards(tier)
+    shards = _e2_shards(tier)
     shards.append(("e1u", None, None, b["d"]))
     for a in G.FLAT_ALPHABET:
         for c in G.FLAT_ALPHABET:
@@ -339,10 +315,8 @@ def run_shard(desc):
     sh = Shard(PROPERTY)
     if desc[0] == "e2":
         _run_e2(desc, sh)
-    elif desc[0] == "e1u":
-        _run_e1_unpruned(desc, sh)
     else:
-        _run_e1_bfs(desc, sh)
+        _run_e1_unpruned(desc, sh)
     from .. import isolation
     d = isolation.tables_restore()
     if d:
@@ -373,7 +347,7 @@ def finish(total, tier, seed):
     return dict(states=total.states,
                 bounds=dict(e2_full_alphabet_max_lines=b["full"], e2_static_alphabet_max_lines=b["static"],
                             block_nesting=BD, clauses_per_block=G.MAXCL, conditions_full=list(G.FULL[0]),
-                            e1_alphabet=len(G.FLAT_ALPHABET), e1_depth_unpruned=b["d"], e1_depth_pruned=b["dmax"]),
+                            e1_alphabet=len(G.FLAT_ALPHABET), e1_depth=b["d"]),
                 deviation_bound_completed=b["d"], caps_hit=[], window="none (every tier enumerates its whole bound)")
 
 
